@@ -229,7 +229,7 @@ def gen_order(ctx):
 
 
 def treebank(max_tokens, max_trees):
-    return S.corpus(S.tree_model(max_tokens=max_tokens, disc=0.6, words=st.sampled_from(["a", "b", "Haus", "x1", "#7", "#42", "#2"])), 1, max_trees)
+    return S.corpus(S.tree_model(max_tokens=max_tokens, disc=0.6, words=st.sampled_from(["a", "b", "Haus", "x1", "#7", "#42", "#2", "#1234", "#9990", "#500th"])), 1, max_trees)
 
 
 def gen_tasks_api(ctx):
